@@ -135,7 +135,10 @@ theorem flushSendTail_quiet (c : Chan) : Quiet c (flushSendTail c) := by
   split
   · split
     · exact quiet_neutral _ (items_sendPkt _ _) rfl rfl rfl rfl (by simp [rho])
-    · exact closeSend_quiet _
+    · simp only [closeSendEof]
+      split
+      · exact quiet_pre _ (items_sendPkt _ _) ((closeSend_quiet _).cast rfl rfl rfl rfl (by simp [rho]))
+      · exact closeSend_quiet _
     · exact quiet_refl _
   · exact quiet_refl _
 
